@@ -23,8 +23,8 @@ import outcommon as oc
 SAFETY = ["X_NoTxBeforeEstablished", "X_NothingAfterClosingTag", "X_LateCallsRefused", "X_OkIffReady",
           "X_OwnReplyOnly", "X_AtMostOneReply", "X_OutcomeConsistent", "X_ServeRetBothClosed",
           "X_RequestOnlyWhenEstablished", "X_AddrStable", "X_UpdateAddrRefused", "X_FailedNeverServed",
-          "X_NoEstablishedAfterFailure"]
-ACTION = ["X_BitsMonotone", "X_ReadyBeforeHandler", "X_PhaseOrder"]
+          "X_NoEstablishedAfterFailure", "X_EstablishedHasAddress"]
+ACTION = ["X_BitsMonotone", "X_ReadyBeforeHandler", "X_PhaseOrder", "X_RefusalNotReady"]
 LIVE = ["X_PeerEndLeadsToClosed", "X_RequestsEnd"]
 
 # deviation -> the properties it must break (each checked alone: non-vacuity of every property)
@@ -40,6 +40,8 @@ DEVS = {
     "DoubleDelivery": ["X_AtMostOneReply"],
     "SpuriousCtxErr": ["X_OutcomeConsistent"],
     "RunAfterFailure": ["X_NoEstablishedAfterFailure"],
+    "EmptyAddress": ["X_EstablishedHasAddress"],
+    "ReadyAfterRefusal": ["X_RefusalNotReady"],
 }
 
 CFG = '''CONSTANTS
@@ -68,32 +70,41 @@ def cfg(props, spec="Spec", txs=("a",), reqs=("i1",), programs="ProgramsQ", scri
 
 
 def design_checks(ctx):
-    """Pipeline A. All TLC runs of the design check go through a small thread pool."""
+    """Pipeline A. The TLC runs of the design check go through a small thread pool."""
     quick = ctx.tier == "quick"
-    w = max(2, verif.NCPU // 4)
     jobs = {}
-    with cf.ThreadPoolExecutor(max_workers=4 if quick else 3) as ex:
+    with cf.ThreadPoolExecutor(max_workers=6 if quick else 4) as ex:
         if quick:
-            jobs["safe"] = ex.submit(ctx.tlc, "MCXMPP", cfg(SAFETY + ACTION, scripts="ScriptsQ"), workers=w, timeout=600, name="MCXMPP_safe")
-            jobs["refine"] = ex.submit(ctx.tlc, "MCXMPP", cfg(["OutputSpec", "OutputInvs"], programs="ProgramsR", scripts="ScriptsQ", roles=("init",)),
+            w = 3
+            # Output's invariants on the mapped variables ride along with the safety run; the full
+            # refinement (Output!Spec as a PROPERTY) and the liveness run use a handful of scripts
+            jobs["safe"] = ex.submit(ctx.tlc, "MCXMPP", cfg(SAFETY + ACTION + ["OutputInvs"], scripts="ScriptsT"), workers=5, timeout=600, name="MCXMPP_safe")
+            jobs["refine"] = ex.submit(ctx.tlc, "MCXMPP", cfg(["OutputSpec"], programs="ProgramsLT", scripts="ScriptsLT", roles=("init",)),
                                        workers=w, timeout=600, name="MCXMPP_refine")
+            jobs["live"] = ex.submit(ctx.tlc, "MCXMPP", cfg(LIVE, spec="FairSpec", programs="ProgramsLT", scripts="ScriptsLQ", roles=("init",)),
+                                     workers=w, timeout=600, name="MCXMPP_live")
+            jobs["live_dev"] = ex.submit(ctx.tlc, "MCXMPP", cfg(["X_PeerEndLeadsToClosed"], spec="FairSpec", programs="ProgramsLT", scripts="ScriptsLQ", roles=("init",), dev=("StallOnGoneRequester",)),
+                                         workers=w, timeout=600, name="MCXMPP_live_dev")
         else:
-            jobs["safe"] = ex.submit(ctx.tlc, "MCXMPP", cfg(SAFETY + ACTION, programs="ProgramsDl", scripts="Scripts3", roles=("init", "recv")),
+            w = max(2, verif.NCPU // 4)
+            jobs["safe"] = ex.submit(ctx.tlc, "MCXMPP", cfg(SAFETY + ACTION, programs="ProgramsDl", scripts="Scripts2"),
                                      workers=w * 2, timeout=3000, name="MCXMPP_safe", heap="12g")
-            jobs["safe2"] = ex.submit(ctx.tlc, "MCXMPP", cfg(SAFETY + ACTION + ["OutputInvs"], txs=("a", "b"), reqs=("i1", "i2"), programs="ProgramsQ", scripts="Scripts2", roles=("init",)),
-                                      workers=w * 2, timeout=3000, name="MCXMPP_safe2", heap="12g")
-            jobs["refine"] = ex.submit(ctx.tlc, "MCXMPP", cfg(["OutputSpec", "OutputInvs"], programs="ProgramsMC", scripts="Scripts2", roles=("init", "recv"), chunks=2),
+            jobs["safe2"] = ex.submit(ctx.tlc, "MCXMPP", cfg(SAFETY + ACTION + ["OutputInvs"], txs=("a",), reqs=("i1", "i2"), programs="ProgramsR", scripts="ScriptsT2", roles=("init",)),
+                                      workers=w, timeout=3000, name="MCXMPP_safe2", heap="12g")
+            jobs["safe3"] = ex.submit(ctx.tlc, "MCXMPP", cfg(SAFETY + ACTION, programs="ProgramsR", scripts="Scripts3", roles=("init",)),
+                                      workers=w, timeout=3000, name="MCXMPP_safe3", heap="12g")
+            jobs["refine"] = ex.submit(ctx.tlc, "MCXMPP", cfg(["OutputSpec", "OutputInvs"], programs="ProgramsDl", scripts="Scripts2", roles=("init",), chunks=2),
                                        workers=w, timeout=3000, name="MCXMPP_refine", heap="8g")
-        jobs["live"] = ex.submit(ctx.tlc, "MCXMPP", cfg(LIVE, spec="FairSpec", programs="ProgramsL", scripts="ScriptsL", roles=("init",)),
-                                 workers=w, timeout=1200, name="MCXMPP_live")
-        jobs["live_dev"] = ex.submit(ctx.tlc, "MCXMPP", cfg(["X_PeerEndLeadsToClosed"], spec="FairSpec", programs="ProgramsL", scripts="ScriptsL", roles=("init",), dev=("StallOnGoneRequester",)),
-                                     workers=w, timeout=1200, name="MCXMPP_live_dev")
+            jobs["live"] = ex.submit(ctx.tlc, "MCXMPP", cfg(LIVE, spec="FairSpec", programs="ProgramsL", scripts="ScriptsL", roles=("init",)),
+                                     workers=w, timeout=3000, name="MCXMPP_live")
+            jobs["live_dev"] = ex.submit(ctx.tlc, "MCXMPP", cfg(["X_PeerEndLeadsToClosed"], spec="FairSpec", programs="ProgramsLT", scripts="ScriptsLT", roles=("init",), dev=("StallOnGoneRequester",)),
+                                         workers=w, timeout=1200, name="MCXMPP_live_dev")
         for d, props in DEVS.items():
-            for p in props:
-                jobs["dev:%s:%s" % (d, p)] = ex.submit(ctx.tlc, "MCXMPP", cfg([p], dev=(d,), scripts="ScriptsQ"), workers=2, timeout=600,
+            for p in (props[:1] if quick else props):       # quick: one property per deviation; thorough: every pair
+                jobs["dev:%s:%s" % (d, p)] = ex.submit(ctx.tlc, "MCXMPP", cfg([p], dev=(d,), scripts="ScriptsT"), workers=2, timeout=600,
                                                        name="MCXMPP_%s_%s" % (d, p))
     res = {k: j.result() for k, j in jobs.items()}
-    for k in ("safe", "safe2", "refine", "live"):
+    for k in ("safe", "safe2", "safe3", "refine", "live"):
         if k not in res:
             continue
         r = res[k]
@@ -104,7 +115,7 @@ def design_checks(ctx):
     for k, r in res.items():
         if k.startswith("dev:"):
             _, d, p = k.split(":")
-            if r.rc == 0 or p not in r.out or "is violated" not in r.out and "was violated" not in r.out:
+            if r.rc == 0 or not re.search(r"(Invariant|Action property) %s is violated" % p, r.out):
                 vac.append("%s does not break %s" % (d, p))
     r = res["live_dev"]
     if r.rc == 0 or not ("Temporal properties were violated" in r.out or "was violated" in r.out):
@@ -378,8 +389,8 @@ def run_part(ctx):
         k = "%s/%s" % (x[0].get("role"), "established" if ret and ret[0].get("ok") else "failed")
         kinds[k] = kinds.get(k, 0) + 1
     cov = {
-        "states": res["safe"].distinct + (res["safe2"].distinct if "safe2" in res else 0),
-        "transitions": res["safe"].generated + (res["safe2"].generated if "safe2" in res else 0),
+        "states": sum(res[k].distinct for k in ("safe", "safe2", "safe3") if k in res),
+        "transitions": sum(res[k].generated for k in ("safe", "safe2", "safe3") if k in res),
         "refinement_states": res["refine"].distinct, "refinement": "XMPP.tla (established/closing part, other variables hidden) => Output!Spec checked as a TLC PROPERTY, plus Output's invariants on the mapped variables",
         "liveness_states": res["live"].distinct,
         "deviation_property_pairs_failing": ndev,
